@@ -5,8 +5,10 @@
      atomic locations      = 4+f: ref_count, 8+f: activated, 13: the parent waker mutex (lock = acquire swap, unlock =
                              release store), 13+t: the hand-over of a waker clone to remote thread t (release store by the
                              future, acquire load by the remote thread: what a channel or mutex would provide)
-     parts data<t>         = what remote thread t published before its first wake of future f (written at the wake's
-                             invocation, read by the future at its next poll if check_activated observed that wake)
+     parts data<t>_<k>     = what remote thread t published before its k-th wake of future f (written at the wake's
+                             invocation; read by the future at the poll that follows the check_activated which consumed the
+                             activation that wake set OR merely looked at: a wake that finds the flag set and returns relies
+                             on that activation, so the poll it leads to must see the publication all the same)
    with the memory orderings the instrumented crate actually passed.  No protocol model is involved.          *)
 EXTENDS TraceRC11
 ====
